@@ -449,6 +449,23 @@ func (tt *TermTable) bin(op Op, a, b *Term) *Term {
 		if b.Op == OpConst && b.Val == 1 {
 			return a
 		}
+		if b.Op == OpConst && b.Val > 1 && b.Val&(b.Val-1) == 0 && sext64(b.Val, w) > 0 {
+			k := uint64(bits.TrailingZeros64(b.Val))
+			if op == OpUDiv {
+				return tt.bin(OpLShr, a, tt.Const(w, k))
+			}
+			// signed division by 2^k truncates toward zero: add (2^k-1) to negative dividends first
+			sign := tt.bin(OpAShr, a, tt.Const(w, uint64(w-1)))
+			bias := tt.bin(OpBAnd, sign, tt.Const(w, b.Val-1))
+			return tt.bin(OpAShr, tt.bin(OpAdd, a, bias), tt.Const(w, k))
+		}
+	case OpSRem:
+		if b.Op == OpConst && b.Val > 1 && b.Val&(b.Val-1) == 0 && sext64(b.Val, w) > 0 {
+			// x - (x / 2^k) * 2^k
+			q := tt.bin(OpSDiv, a, b)
+			k := uint64(bits.TrailingZeros64(b.Val))
+			return tt.bin(OpSub, a, tt.bin(OpShl, q, tt.Const(w, k)))
+		}
 	case OpURem:
 		if b.Op == OpConst && b.Val > 0 {
 			c := b.Val
@@ -629,6 +646,33 @@ func umax(t *Term) uint64 {
 		if t.B.Op == OpConst && t.B.Val > 0 {
 			return umax(t.A) / t.B.Val
 		}
+	case OpMul:
+		a, b := umax(t.A), umax(t.B)
+		hi, lo := bits.Mul64(a, b)
+		if hi == 0 && lo <= mask(t.W) {
+			return lo
+		}
+	case OpShl:
+		if t.B.Op == OpConst && t.B.Val < 64 {
+			a := umax(t.A)
+			if r := a << t.B.Val; r>>t.B.Val == a && r <= mask(t.W) {
+				return r
+			}
+		}
+	case OpExtract:
+		if m := umax(t.A); m <= mask(t.W) {
+			return m
+		}
+	case OpBOr, OpBXor:
+		a, b := umax(t.A), umax(t.B)
+		if a < b {
+			a = b
+		}
+		// smallest all-ones value covering the larger operand
+		if a == 0 {
+			return 0
+		}
+		return (uint64(1)<<uint(bits.Len64(a)) - 1) | a
 	case OpLShr:
 		if t.B.Op == OpConst && t.B.Val < 64 {
 			return umax(t.A) >> t.B.Val
@@ -656,6 +700,17 @@ func (tt *TermTable) cmp(op Op, a, b *Term) *Term {
 	}
 	if a == b {
 		return tt.Bool(op == OpULe || op == OpSLe)
+	}
+	// x+y compared with x when the addition provably does not wrap
+	if op == OpULt && a.Op == OpAdd && (a.A == b || a.B == b) {
+		if sum := umax(a.A) + umax(a.B); sum >= umax(a.A) && sum <= mask(w) {
+			return tt.fls
+		}
+	}
+	if op == OpULe && b.Op == OpAdd && (b.A == a || b.B == a) {
+		if sum := umax(b.A) + umax(b.B); sum >= umax(b.A) && sum <= mask(w) {
+			return tt.tru
+		}
 	}
 	// cheap range facts
 	switch op {
